@@ -52,7 +52,21 @@ def scenarios(tier, mode="th"):
     add("d1||d1||d1 (two waiters on the pid condition)", "p1A", {"T1": [D1], "T2": [D1], "T3": [D1]}, 2)
     add("t1A||t2A||t3A (two waiters on the cid condition)", "Aunref", {"T1": [T1A], "T2": [T2A], "T3": [T3A]}, 2)
     add("M1||M2||M1 (two waiters on the document condition)", "meta", {"T1": [M1], "T2": [M2], "T3": [M1]}, 2)
+    # FOUR calls, two identifiers: two waiters for DIFFERENT identifiers on one shared condition - a wake-up that reaches the
+    # wrong waiter must be replaced by a later one (pre-emption bound 2; one scenario per condition family)
+    XB = ("dii", "B", "badsize")
+    D2F = ("delete_meta", "p2", DEFAULT_NS)
+    add("d1||d1||d2||d2 (pid condition, two identifiers)", "empty", {"T1": [D1], "T2": [D1], "T3": [D2], "T4": [D2]}, 2)
+    add("xA||xA||xB||xB (cid condition, two identifiers)", "ABunref", {"T1": [XA], "T2": [XA], "T3": [XB], "T4": [XB]}, 2)
+    add("Df(p1)||Df(p1)||Df(p2)||Df(p2) (document condition, two identifiers)", "empty",
+        {"T1": [DF], "T2": [DF], "T3": [D2F], "T4": [D2F]}, 2)
     if tier == "thorough":
+        add("s1A||d1||s2B||d2 (pid condition, two identifiers)", "empty",
+            {"T1": [S1A], "T2": [D1], "T3": [("store", "p2", "B", None)], "T4": [D2]}, 2)
+        add("t1A||t2A||t3B||t4B (cid and reference conditions, two identifiers)", "empty",
+            {"T1": [T1A], "T2": [T2A], "T3": [("tag", "p3", "B")], "T4": [("tag", "p4", "B")]}, 2)
+        add("M(p1)||M(p1)||M(p2)||M(p2) (document condition, two identifiers)", "empty",
+            {"T1": [M1], "T2": [M2], "T3": [("store_meta", "p2", None, "v0")], "T4": [("store_meta", "p2", None, "v1")]}, 2)
         add("s1A||s2A (same cid)", "empty", {"T1": [S1A], "T2": [S2A]})
         add("d1||d2 (same cid)", "p1A,p2A", {"T1": [D1], "T2": [D2]})
         add("s1A||s2A||s3A (two waiters on the cid condition)", "empty", {"T1": [S1A], "T2": [S2A], "T3": [S3A]}, 2)
